@@ -194,6 +194,110 @@ theorem expandLogic_countInv_of_ok {G : Nat → Nat} {c : Cuckoo} (extra : Optio
   | none => simp at hok
   | some c' => exact reinsert_countInv G _ _ o c' o' (TS_emptied hs hr) (CountInv_emptied c) hrr
 
+/-! ### rewriting one bucket: the three ways `add` / `remove` touch a stored bin -/
+
+/-- the bin with fingerprint `fp` in bucket `i` has its count raised by one -/
+theorem CountInv_inc {G : Nat → Nat} {c c' : Cuckoo} {i fp : Nat} (hw : WF G c) (hi : i < c.cap)
+    (hh : c.hasFp i fp = true) (hcount : c.counting = true) (hsame : Same c c')
+    (hb : c'.buckets = c.buckets.set i ((c.bucket i).map fun bin =>
+      if bin.1 == fp then (bin.1, bin.2 + 1) else bin))
+    (e1 : c'.count = c.count + 1) (e2 : c'.unique = c.unique) (hc : CountInv c) : CountInv c' := by
+  obtain ⟨_, hc'⟩ := WF_modify_map (G := G) (c' := c')
+    (fun bin => if bin.1 == fp then (bin.1, bin.2 + 1) else bin) hw hi hsame hb
+    (by intro x; by_cases e : (x.1 == fp) = true <;> simp [e])
+    (by intro x hx; have := hw.cnt_pos x (stored_of_bucket hx)
+        by_cases e : (x.1 == fp) = true <;> simp [e]; exact this)
+    (by intro hf; rw [hcount] at hf; exact absurd hf (by simp))
+  obtain ⟨h1, h2, h3⟩ := hc
+  refine ⟨?_, fun _ => ?_, fun hf => ?_⟩
+  · have g1 := hc' wCnt
+    have g2 : bsum (wCnt ∘ fun bin => if bin.1 == fp then (bin.1, bin.2 + 1) else bin) (c.bucket i)
+        = bsum wCnt (c.bucket i) + bsum (isFp fp) (c.bucket i) := by
+      rw [← bsum_add]
+      apply bsum_congr
+      intro x _
+      simp only [Function.comp, isFp, wCnt]
+      by_cases e : x.1 = fp
+      · simp [e]
+      · simp [e]
+    have g3 := bsum_isFp_bucket_eq_one hw i fp hh
+    rw [g2, g3] at g1
+    omega
+  · have g1 := hc' wOne
+    have g2 : bsum (wOne ∘ fun bin => if bin.1 == fp then (bin.1, bin.2 + 1) else bin) (c.bucket i)
+        = bsum wOne (c.bucket i) := rfl
+    rw [g2] at g1
+    have := h2 hcount
+    omega
+  · rw [hsame.counting, hcount] at hf; exact absurd hf (by simp)
+
+/-- the bin `bin` (count ≥ 2) with fingerprint `fp` in bucket `i` has its count lowered by one -/
+theorem CountInv_dec {G : Nat → Nat} {c c' : Cuckoo} {i fp : Nat} {bin : CBin} (hw : WF G c) (hi : i < c.cap)
+    (hh : c.hasFp i fp = true) (hbm : bin ∈ c.bucket i) (hb1 : bin.1 = fp) (hgt : ¬ bin.2 ≤ 1)
+    (hcount : c.counting = true) (hsame : Same c c')
+    (hb : c'.buckets = c.buckets.set i ((c.bucket i).map fun x =>
+      if x.1 == fp then (x.1, x.2 - 1) else x))
+    (e1 : c'.count = c.count - 1) (e2 : c'.unique = c.unique) (hc : CountInv c) : CountInv c' := by
+  have hbs : stored c bin := stored_of_bucket hbm
+  obtain ⟨_, hc'⟩ := WF_modify_map (G := G) (c' := c')
+    (fun x => if x.1 == fp then (x.1, x.2 - 1) else x) hw hi hsame hb
+    (by intro x; by_cases e : (x.1 == fp) = true <;> simp [e])
+    (by
+      intro x hx
+      have hxs := stored_of_bucket hx
+      have := hw.cnt_pos x hxs
+      by_cases e : (x.1 == fp) = true
+      · have e' : x.1 = fp := by simpa using e
+        have : x = bin := stored_unique hw x bin hxs hbs (e'.trans hb1.symm)
+        subst this
+        simp only [e, if_true]; omega
+      · simp only [e]; exact this)
+    (by intro hf; rw [hcount] at hf; exact absurd hf (by simp))
+  obtain ⟨h1, h2, h3⟩ := hc
+  refine ⟨?_, fun _ => ?_, fun hf => ?_⟩
+  · have g1 := hc' wCnt
+    have g2 : bsum (wCnt ∘ fun x => if x.1 == fp then (x.1, x.2 - 1) else x) (c.bucket i)
+        + bsum (isFp fp) (c.bucket i) = bsum wCnt (c.bucket i) := by
+      rw [← bsum_add]
+      apply bsum_congr
+      intro x hx
+      have := hw.cnt_pos x (stored_of_bucket hx)
+      simp only [Function.comp, isFp, wCnt]
+      by_cases e : x.1 = fp
+      · simp [e]; omega
+      · simp [e]
+    have g3 := bsum_isFp_bucket_eq_one hw i fp hh
+    rw [g3] at g2
+    omega
+  · have g1 := hc' wOne
+    have g2 : bsum (wOne ∘ fun x => if x.1 == fp then (x.1, x.2 - 1) else x) (c.bucket i)
+        = bsum wOne (c.bucket i) := rfl
+    rw [g2] at g1
+    have := h2 hcount
+    omega
+  · rw [hsame.counting, hcount] at hf; exact absurd hf (by simp)
+
+/-- a bin of count 1 is erased from bucket `i` -/
+theorem CountInv_erase {G : Nat → Nat} {c c' : Cuckoo} {i : Nat} {a : CBin} (hw : WF G c) (hi : i < c.cap)
+    (ha : a ∈ c.bucket i) (ha2 : a.2 = 1) (hsame : Same c c')
+    (hb : c'.buckets = c.buckets.set i ((c.bucket i).erase a))
+    (e1 : c'.count = c.count - 1) (e2 : c'.unique = if c.counting then c.unique - 1 else c.unique)
+    (hc : CountInv c) : CountInv c' := by
+  obtain ⟨_, hc'⟩ := WF_modify_erase (G := G) (c' := c') a hw hi hsame hb ha
+  obtain ⟨h1, h2, h3⟩ := hc
+  refine ⟨?_, fun hf => ?_, fun hf => ?_⟩
+  · have g1 := hc' wCnt
+    have g2 : wCnt a = 1 := ha2
+    omega
+  · rw [hsame.counting] at hf
+    have g1 := hc' wOne
+    have g2 : wOne a = 1 := rfl
+    have := h2 hf
+    rw [e2, if_pos hf]
+    omega
+  · rw [hsame.counting] at hf
+    rw [e2, hf]; simpa using h3 hf
+
 /-! ### `add` -/
 
 theorem add_countInv {G : Nat → Nat} {c : Cuckoo} (h : Nat) (o : List Nat) (hw : WF G c) (hc : CountInv c) :
@@ -207,40 +311,7 @@ theorem add_countInv {G : Nat → Nat} {c : Cuckoo} (h : Nat) (o : List Nat) (hw
       rcases hi12 with rfl | rfl <;> exact Nat.mod_lt _ hw.ts.cap_pos
     by_cases hcount : c.counting = true
     · rw [if_pos hcount]
-      obtain ⟨_, hc'⟩ := WF_modify_map (G := G)
-        (c' := { c with buckets := c.buckets.set i ((c.bucket i).map fun bin =>
-                  if bin.1 == fp then (bin.1, bin.2 + 1) else bin), count := c.count + 1 })
-        (fun bin => if bin.1 == fp then (bin.1, bin.2 + 1) else bin) hw hi
-        ⟨rfl, rfl, rfl, rfl, rfl, rfl, rfl⟩ rfl
-        (by intro x; by_cases e : (x.1 == fp) = true <;> simp [e])
-        (by intro x hx; have := hw.cnt_pos x (stored_of_bucket hx)
-            by_cases e : (x.1 == fp) = true <;> simp [e]; exact this)
-        (by intro hf; rw [hcount] at hf; exact absurd hf (by simp))
-      dsimp only
-      obtain ⟨h1, h2, h3⟩ := hc
-      refine ⟨?_, fun _ => ?_, fun hf => ?_⟩
-      · have g1 := hc' wCnt
-        have g2 : bsum (wCnt ∘ fun bin => if bin.1 == fp then (bin.1, bin.2 + 1) else bin) (c.bucket i)
-            = bsum wCnt (c.bucket i) + bsum (isFp fp) (c.bucket i) := by
-          rw [← bsum_add]
-          apply bsum_congr
-          intro x _
-          simp only [Function.comp, isFp]
-          by_cases e : x.1 = fp
-          · simp [e]
-          · simp [e]
-        have g3 := bsum_isFp_bucket_eq_one hw i fp hh
-        rw [g2, g3] at g1
-        show c.count + 1 = _
-        omega
-      · have g1 := hc' wOne
-        have g2 : bsum (wOne ∘ fun bin => if bin.1 == fp then (bin.1, bin.2 + 1) else bin) (c.bucket i)
-            = bsum wOne (c.bucket i) := rfl
-        rw [g2] at g1
-        show c.unique = _
-        have := h2 hcount
-        omega
-      · exact absurd (hcount.symm.trans hf) (by simp)
+      exact CountInv_inc hw hi hh hcount ⟨rfl, rfl, rfl, rfl, rfl, rfl, rfl⟩ rfl rfl rfl hc
     · rw [if_neg hcount]; exact hc
   · have hci := insertFp_countInv (G := G) (fp, 1) o hw.ts hc
     have hcs := insertFp_counters G c (fp, 1) (fp % c.cap) (G fp % c.cap) o
@@ -263,9 +334,8 @@ theorem remove_countInv {G : Nat → Nat} {c : Cuckoo} (h : Nat) (hw : WF G c) (
     CountInv (remove G c h).1 := by
   simp only [remove, indices]
   generalize c.fingerprint h = fp
-  obtain ⟨h1, h2, h3⟩ := hc
   split
-  · exact ⟨h1, h2, h3⟩
+  · exact hc
   · rename_i i hp
     obtain ⟨hi12, hh⟩ := present_some hp
     have hi : i < c.cap := by
@@ -274,84 +344,25 @@ theorem remove_countInv {G : Nat → Nat} {c : Cuckoo} (h : Nat) (hw : WF G c) (
     by_cases hcount : c.counting = true
     · rw [if_pos hcount]
       split
-      · exact ⟨h1, h2, h3⟩
+      · exact hc
       · rename_i bin hf
         have hb1 : bin.1 = fp := by simpa using List.find?_some hf
         have hbm : bin ∈ c.bucket i := List.mem_of_find?_eq_some hf
-        have hbs : stored c bin := stored_of_bucket hbm
-        have hbpos := hw.cnt_pos bin hbs
+        have hbpos := hw.cnt_pos bin (stored_of_bucket hbm)
         split
         · rename_i hle
-          obtain ⟨_, hc'⟩ := WF_modify_erase (G := G)
-            (c' := { c with buckets := c.buckets.set i ((c.bucket i).erase bin), count := c.count - 1,
-                            unique := c.unique - 1 })
-            bin hw hi ⟨rfl, rfl, rfl, rfl, rfl, rfl, rfl⟩ rfl hbm
-          dsimp only
-          refine ⟨?_, fun _ => ?_, fun hf' => absurd (hcount.symm.trans hf') (by simp)⟩
-          · have g1 := hc' wCnt
-            have g2 : wCnt bin = 1 := by show bin.2 = 1; omega
-            show c.count - 1 = _
-            omega
-          · have g1 := hc' wOne
-            have g2 : wOne bin = 1 := rfl
-            show c.unique - 1 = _
-            have := h2 hcount; omega
+          exact CountInv_erase hw hi hbm (by omega) ⟨rfl, rfl, rfl, rfl, rfl, rfl, rfl⟩ rfl rfl
+            (by simp only [hcount, if_true]) hc
         · rename_i hgt
-          obtain ⟨_, hc'⟩ := WF_modify_map (G := G)
-            (c' := { c with buckets := c.buckets.set i ((c.bucket i).map fun x =>
-                      if x.1 == fp then (x.1, x.2 - 1) else x), count := c.count - 1 })
-            (fun x => if x.1 == fp then (x.1, x.2 - 1) else x) hw hi
-            ⟨rfl, rfl, rfl, rfl, rfl, rfl, rfl⟩ rfl
-            (by intro x; by_cases e : (x.1 == fp) = true <;> simp [e])
-            (by
-              intro x hx
-              have hxs := stored_of_bucket hx
-              have := hw.cnt_pos x hxs
-              by_cases e : (x.1 == fp) = true
-              · have e' : x.1 = fp := by simpa using e
-                have : x = bin := stored_unique hw x bin hxs hbs (e'.trans hb1.symm)
-                subst this
-                simp only [e, if_true]; omega
-              · simp only [e]; exact this)
-            (by intro hf; rw [hcount] at hf; exact absurd hf (by simp))
-          dsimp only
-          refine ⟨?_, fun _ => ?_, fun hf' => absurd (hcount.symm.trans hf') (by simp)⟩
-          · have g1 := hc' wCnt
-            have g2 : bsum (wCnt ∘ fun x => if x.1 == fp then (x.1, x.2 - 1) else x) (c.bucket i)
-                + bsum (isFp fp) (c.bucket i) = bsum wCnt (c.bucket i) := by
-              rw [← bsum_add]
-              apply bsum_congr
-              intro x hx
-              have := hw.cnt_pos x (stored_of_bucket hx)
-              simp only [Function.comp, isFp]
-              by_cases e : x.1 = fp
-              · simp [e]; omega
-              · simp [e]
-            have g3 := bsum_isFp_bucket_eq_one hw i fp hh
-            rw [g3] at g2
-            show c.count - 1 = _
-            omega
-          · have g1 := hc' wOne
-            have g2 : bsum (wOne ∘ fun x => if x.1 == fp then (x.1, x.2 - 1) else x) (c.bucket i)
-                = bsum wOne (c.bucket i) := rfl
-            rw [g2] at g1
-            show c.unique = _
-            have := h2 hcount; omega
+          exact CountInv_dec hw hi hh hbm hb1 hgt hcount ⟨rfl, rfl, rfl, rfl, rfl, rfl, rfl⟩ rfl rfl rfl hc
     · have hcf : c.counting = false := by simpa using hcount
       rw [if_neg hcount]
       have hb0 : bin0 = (fp, 1) := by
         have := hw.plain hcf bin0 (stored_of_bucket hm0)
         exact Prod.ext e0 this
       subst hb0
-      obtain ⟨_, hc'⟩ := WF_modify_erase (G := G)
-        (c' := { c with buckets := c.buckets.set i ((c.bucket i).erase (fp, 1)), count := c.count - 1 })
-        (fp, 1) hw hi ⟨rfl, rfl, rfl, rfl, rfl, rfl, rfl⟩ rfl hm0
-      dsimp only
-      refine ⟨?_, fun hf' => absurd hf' hcount, fun hf' => h3 hf'⟩
-      · have g1 := hc' wCnt
-        have g2 : wCnt (fp, 1) = 1 := rfl
-        show c.count - 1 = _
-        omega
+      exact CountInv_erase hw hi hm0 rfl ⟨rfl, rfl, rfl, rfl, rfl, rfl, rfl⟩ rfl rfl
+        (by simp only [hcf]; rfl) hc
 
 /-! ### `load` recounts -/
 
